@@ -9,10 +9,9 @@ fn main() {
     let args = mcutil::Args::parse();
     mcutil::silence_panics();
     tlsutil::install_provider();
-    let code = match args.property.as_str() {
+    mcutil::guarded_main(|| match args.property.as_str() {
         "C18" => c18::run(&args),
         "C19" => c19::run(&args),
         other => mcutil::machinery_error(&format!("tlsmc does not serve {other}")),
-    };
-    std::process::exit(code);
+    });
 }
